@@ -20,6 +20,9 @@ def run(rep, work, rng, tier):
             b = apihist.conforming_history(rng, snap=False); lines = b.lines + ['print 0', 'save 0 b%d.c3d' % i, 'load 1 b%d.c3d' % i, 'snap 1', 'drop 0']
             for kind, calls in c10.refusing_calls(rng, b.sh)[:rng.choice([3, 8])]: lines += calls
             lines += ['snap 1']
+            if b.sh.nframes:
+                # a stored frame handed back to the object (append, extend, replace): the argument aliases the frame vector
+                lines += ['frameD 1 - 0', 'frameD 1 %d %d' % (b.sh.nframes + 70, b.sh.nframes - 1), 'frameD 1 0 %d' % (b.sh.nframes - 1), 'snap 1']
             add('conforming-history+refused-calls', 'c%d' % i, lines)
         else:
             L = filegen.make_layout(rng); c = filegen.make_content(rng)
